@@ -84,6 +84,7 @@ def _mk_v1(root, name, wsdir, version, cache, history, njobs, collide, mkws=True
     with open(os.path.join(root, "signac.rc"), "w") as f:
         f.write("\n".join(lines) + "\n")
     os.environ["VF_C20_WS"] = "envdir"      # signac 1.x expanded environment variables in workspace_dir
+    os.environ["VF_C20_ABS"] = os.path.join(os.path.dirname(root), "abs_scratch")     # ... also to absolute paths (the join then drops the project root)
     ws = os.path.join(root, os.path.expandvars(wsdir))
     if mkws or njobs:
         os.makedirs(ws)      # signac 1.x created the workspace directory with the first job: a project without jobs may not have one
@@ -130,7 +131,7 @@ def _observe_project(root):
 
 
 NAMES = [None, "proj", "my proj-1.0!", "sims, run #2", "50%_dense", "x$y"]
-WSDIRS = ["workspace", "ws", "a/ws", "w,s", ".workspace", "../workspace", "$VF_C20_WS/ws"]   # the last two: names that differ from the default only by leading dots / a parent step
+WSDIRS = ["workspace", "ws", "a/ws", "w,s", ".workspace", "../workspace", "$VF_C20_WS/ws", "$VF_C20_ABS/ws"]   # the last two: names that differ from the default only by leading dots / a parent step
 
 
 def _migrate_case(name, wsd, version, cache, history, njobs, collide, mkws=True):
@@ -213,13 +214,13 @@ def _migrate_case(name, wsd, version, cache, history, njobs, collide, mkws=True)
 
 
 def h_migrate(name: int, wsd: int, ver: int, cache: bool, history: bool, njobs: int, collide: bool, mkws: bool):
-    assert 0 <= name <= 5 and 0 <= wsd <= 6 and 0 <= ver <= 2 and 0 <= njobs <= 2 and part_ok(wsd * 3 + ver)
+    assert 0 <= name <= 5 and 0 <= wsd <= 7 and 0 <= ver <= 2 and 0 <= njobs <= 2 and part_ok(wsd * 3 + ver)
     assert (wsd != 0) or not collide
     assert mkws or njobs == 0
     assert wsd <= 3 or (name <= 1 and not cache and not history)
     assert name <= 3 or (wsd <= 1 and not cache and not history and not collide)
     fresh_path()
-    name, wsd, ver, cache, history, njobs, collide, mkws = ci(name, 0, 5), ci(wsd, 0, 6), pick([None, 0, 1], ver), cb(cache), cb(history), ci(njobs, 0, 2), cb(collide), cb(mkws)
+    name, wsd, ver, cache, history, njobs, collide, mkws = ci(name, 0, 5), ci(wsd, 0, 7), pick([None, 0, 1], ver), cb(cache), cb(history), ci(njobs, 0, 2), cb(collide), cb(mkws)
     with nt():
         problems = _migrate_case(name, wsd, ver, cache, history, njobs, collide, mkws)
     reached()
